@@ -325,6 +325,114 @@ Section WithEngine.
   Definition sm_unique (p : list N) : bool := is_unique (sm_of p).
 End WithEngine.
 
+(* ------------------------------------------------------------------ glue: SegmentedStringMatcher, PathMatcher *)
+
+Fixpoint list_eqb (a b : list N) : bool :=
+  match a, b with
+  | [], [] => true
+  | x :: a', y :: b' => (x =? y) && list_eqb a' b'
+  | _, _ => false
+  end.
+
+(* StringTokenizer(str, "/"): a SOFT separator; runs collapse and none is produced at the ends *)
+Fixpoint soft_split (sep : N) (s cur : list N) : list (list N) :=
+  match s with
+  | [] => match cur with [] => [] | _ => [rev cur] end
+  | c :: t =>
+      if c =? sep then (match cur with [] => soft_split sep t [] | _ => rev cur :: soft_split sep t [] end)
+      else soft_split sep t (c :: cur)
+  end.
+
+(* StringTokenizer(str, "//"): a HARD separator (empty tokens are kept; an empty text has no token) *)
+Definition hard_split (sep : N) (s : list N) : list (list N) :=
+  match s with [] => [] | _ => split_on sep s [] end.
+
+Definition ch_slash : N := 47.
+Definition star_only : list N := [42].
+
+(* int GetPathDepth(path) (regex/PathMatcher.cpp), the loop on fuel *)
+Fixpoint after_sep (sep : N) (p : list N) : option (list N) :=
+  match p with
+  | [] => None
+  | c :: t => if c =? sep then Some t else after_sep sep t
+  end.
+Fixpoint depth_loop (fuel : nat) (p : list N) : nat :=
+  match fuel with
+  | O => O
+  | S f => ((if is_nil p then 0 else 1) + match after_sep ch_slash p with Some t => depth_loop f t | None => 0 end)%nat
+  end.
+Definition skip_slash (p : list N) : list N :=
+  match p with c :: t => if c =? ch_slash then t else p | [] => p end.
+Definition path_depth (p : list N) : nat := let q := skip_slash p in depth_loop (S (length q)) q.
+
+Section Glue.
+  Variable engine : list N -> rx.
+
+  (* one matcher per clause; a clause that is exactly "*" gets no matcher (NULL ref).  None: a clause failed to compile *)
+  Fixpoint build_clauses (toks : list (list N)) (simple : bool) : option (list (option sm)) :=
+    match toks with
+    | [] => Some []
+    | t :: r =>
+        if simple && list_eqb t star_only then
+          match build_clauses r simple with Some l => Some (None :: l) | None => None end
+        else
+          let (st, ok) := set_pattern engine sm_init t simple in
+          if ok then match build_clauses r simple with Some l => Some (Some st :: l) | None => None end
+          else None
+    end.
+
+  Definition clause_ok1 (m : option sm) (t : list N) : bool :=
+    match m with None => true | Some st => matches st t end.
+
+  (* ---- regex/SegmentedStringMatcher.cpp *)
+  Record segm := mkG { g_negate : bool; g_segs : list (option sm) }.
+  Definition seg_init : segm := mkG false [].
+
+  (* SetPattern(s, isSimple, "/", MUSCLE_NO_LIMIT) -> (object, status ok) *)
+  Definition seg_set_pattern (p : list N) (simple : bool) : segm * bool :=
+    let (neg, body) :=
+      if simple then (match p with c :: t => if c =? c_sp_negate_char then (true, t) else (false, p) | [] => (false, p) end)
+      else (false, p) in
+    match build_clauses (soft_split ch_slash body []) simple with
+    | Some segs => (mkG neg segs, true)
+    | None => (seg_init, false)
+    end.
+
+  Fixpoint seg_match_aux (segs : list (option sm)) (toks : list (list N)) (prefixOk : bool) : bool :=
+    match segs with
+    | [] => match toks with [] => true | _ => prefixOk end
+    | m :: segs' =>
+        match toks with
+        | [] => false
+        | t :: toks' => clause_ok1 m t && seg_match_aux segs' toks' prefixOk
+        end
+    end.
+
+  Definition seg_match (g : segm) (s : list N) (prefixOk : bool) : bool :=
+    let r := seg_match_aux (g_segs g) (soft_split ch_slash s []) prefixOk in
+    if g_negate g then negb r else r.
+
+  Definition seg_unique (g : segm) : bool :=
+    negb (g_negate g) && negb (is_nil (g_segs g)) &&
+    forallb (fun m => match m with Some st => is_unique st | None => false end) (g_segs g).
+
+  (* ---- regex/PathMatcher.cpp: one PutPathString(path, no filter), then MatchesPath(subject, NULL, NULL) *)
+  Definition path_put (path : list N) : option (list (option sm)) :=
+    match path with
+    | [] => None
+    | _ => build_clauses (split_on ch_slash path []) true
+    end.
+
+  Fixpoint clauses_match (ms : list (option sm)) (toks : list (list N)) : bool :=
+    match ms with
+    | [] => true
+    | m :: ms' => match toks with [] => false | t :: toks' => clause_ok1 m t && clauses_match ms' toks' end
+    end.
+
+  Definition path_matches (ms : list (option sm)) (subject : list N) : bool :=
+    Nat.eqb (path_depth subject) (length ms) && clauses_match ms (hard_split ch_slash (skip_slash subject)).
+End Glue.
+
 (* the engine obtained from the Ere.v model ([CUnsupported] is outside every claim; it is
    mapped to a compile failure here and reported separately by the driver) *)
 Definition ere_engine (re : list N) : rx :=
@@ -339,3 +447,12 @@ Definition regex_supported (p : list N) (simple : bool) : bool :=
   | None => true
   | Some re => match ere_compile re with CUnsupported => false | _ => true end
   end.
+
+Definition clauses_supported (toks : list (list N)) (simple : bool) : bool :=
+  forallb (fun t => (simple && list_eqb t star_only) || regex_supported t simple) toks.
+
+Definition seg_supported (p : list N) (simple : bool) : bool :=
+  let body := if simple then (match p with c :: t => if c =? c_sp_negate_char then t else p | [] => p end) else p in
+  clauses_supported (soft_split ch_slash body []) simple.
+
+Definition path_supported (path : list N) : bool := clauses_supported (split_on ch_slash path []) true.
